@@ -189,12 +189,18 @@ func (gtidSet MariadbGTIDSet) AddGTID(other GTID) GTIDSet {
 	for i, gtid := range gtidSet {
 		if mdbOther.Domain == gtid.Domain {
 			if mdbOther.Sequence > gtid.Sequence {
-				gtidSet[i] = mdbOther
+				// GTIDSets are immutable: replace in a copy.
+				newSet := make(MariadbGTIDSet, len(gtidSet))
+				copy(newSet, gtidSet)
+				newSet[i] = mdbOther
+				return newSet
 			}
 			return gtidSet
 		}
 	}
-	return append(gtidSet, mdbOther)
+	newSet := make(MariadbGTIDSet, len(gtidSet), len(gtidSet)+1)
+	copy(newSet, gtidSet)
+	return append(newSet, mdbOther)
 }
 
 func init() {
